@@ -150,15 +150,20 @@ theorem cellPieces_scaled (es : List Value) (sc off : Nat) (hne : es ≠ []) :
   simp only [Bool.false_eq_true, ↓reduceIte, List.flatMap_map, pieceOf]
   exact flatMap_single _ es
 
-theorem mapR_scaled (ar : Arith) (bt scale offset : Nat) (units : Txt) (hdg : (units == degreesTxt && bt == btSint32) = false) :
+theorem int32Bts_ne_string {bt : Nat} (h : bt ∈ int32Bts) : (bt == btString) = false := by
+  simp only [int32Bts, List.mem_cons, List.not_mem_nil, or_false] at h
+  rcases h with h | h | h | h | h | h | h | h | h | h | h <;> subst h <;> decide
+
+theorem mapR_scaled (ar : Arith) (bt scale offset : Nat) (units : Txt) (hdg : (units == degreesTxt && bt == btSint32) = false)
+    (hns : (bt == btString) = false) :
     ∀ es : List Value, (∀ e ∈ es, ar.scaled e bt scale offset = some e) →
       mapR (fun a => parseAtom ar a bt false scale offset units) (es.map fun s => Atom.scaled s scale offset) = .ok es
   | [], _ => rfl
   | e :: es, h => by
-    have ih := mapR_scaled ar bt scale offset units hdg es (fun x hx => h x (List.mem_cons_of_mem _ hx))
+    have ih := mapR_scaled ar bt scale offset units hdg hns es (fun x hx => h x (List.mem_cons_of_mem _ hx))
     have he := h e (List.mem_cons_self ..)
     have hp : parseAtom ar (Atom.scaled e scale offset) bt false scale offset units = .ok e := by
-      simp only [parseAtom, hdg, Bool.false_eq_true, ↓reduceIte, beq_self_eq_true, Bool.and_self, he]
+      simp only [parseAtom, hdg, Bool.false_eq_true, ↓reduceIte, beq_self_eq_true, Bool.and_self, he, hns]
     simp only [List.map_cons, mapR, hp, ih]
 
 /-- **an array of scaled values survives the default (scaled) round trip through its cell**, element by element, with
@@ -195,7 +200,7 @@ theorem field_rt_scaled_array_so (o : Opts) (ds : List Desc) (msg : Message) (fl
     intro e hx
     obtain ⟨⟨ty, pat⟩, hi⟩ := Option.isSome_iff_exists.mp (hint e hx)
     exact arith_so_profile p.bt e (hall e hx) ty pat hi (p.scale, p.offset) hpair
-  have hm := mapR_scaled Arith.so p.bt p.scale p.offset (txt p.units) hdg es har
+  have hm := mapR_scaled Arith.so p.bt p.scale p.offset (txt p.units) hdg (int32Bts_ne_string hbt) es har
   have hpack : packValues es = fld.value := by
     have e1 : es.map csvNormS = es := by
       conv => rhs; rw [← List.map_id es]
